@@ -73,32 +73,32 @@ type aFile struct {
 }
 
 type aStep struct {
-	Op      string              `json:"op"`
-	Method  string              `json:"method"`
-	Path    string              `json:"path"`
-	Query   string              `json:"query"`
-	Headers map[string][]string `json:"headers"`
-	B64     string              `json:"b64"`
-	Unknown bool                `json:"unknown"` // Content-Length unknown (-1)
-	Remote  string              `json:"remote"`
-	Repo    string              `json:"repo"`
-	Digest  string              `json:"digest"`
-	Secs    float64             `json:"secs"`
-	Kind    string              `json:"kind"`
-	Files   []aFile             `json:"files"`
-	Par     [][]aStep           `json:"par"`
-	Conf    *aConf              `json:"conf"`
-	Full    bool                `json:"full"`
-	Names   []string            `json:"names"`
-	Descs   []vwDesc            `json:"descs"`
-	Cfg     map[string]interface{} `json:"cfg"`
-	N       int                 `json:"n"`
-	Partial bool                `json:"partial"`
-	Calls   []bcCall            `json:"calls"` // op "bc": calls on the store's BlobCreator interface
-	TimeoutMS int               `json:"timeout_ms"` // the request's context is cancelled after this long
-	Idx     int                 `json:"idx"`        // index under which the session of an upload POST is remembered (steps inside par / async)
-	Mid     []aStep             `json:"mid"`   // executed after Split bytes of the body have been read by the handler
-	Split   int                 `json:"split"`
+	Op        string                 `json:"op"`
+	Method    string                 `json:"method"`
+	Path      string                 `json:"path"`
+	Query     string                 `json:"query"`
+	Headers   map[string][]string    `json:"headers"`
+	B64       string                 `json:"b64"`
+	Unknown   bool                   `json:"unknown"` // Content-Length unknown (-1)
+	Remote    string                 `json:"remote"`
+	Repo      string                 `json:"repo"`
+	Digest    string                 `json:"digest"`
+	Secs      float64                `json:"secs"`
+	Kind      string                 `json:"kind"`
+	Files     []aFile                `json:"files"`
+	Par       [][]aStep              `json:"par"`
+	Conf      *aConf                 `json:"conf"`
+	Full      bool                   `json:"full"`
+	Names     []string               `json:"names"`
+	Descs     []vwDesc               `json:"descs"`
+	Cfg       map[string]interface{} `json:"cfg"`
+	N         int                    `json:"n"`
+	Partial   bool                   `json:"partial"`
+	Calls     []bcCall               `json:"calls"`      // op "bc": calls on the store's BlobCreator interface
+	TimeoutMS int                    `json:"timeout_ms"` // the request's context is cancelled after this long
+	Idx       int                    `json:"idx"`        // index under which the session of an upload POST is remembered (steps inside par / async)
+	Mid       []aStep                `json:"mid"`        // executed after Split bytes of the body have been read by the handler
+	Split     int                    `json:"split"`
 }
 
 // splitReader delivers data[:split], then runs fn (other requests, while the handler
@@ -152,25 +152,25 @@ type bcOut struct {
 }
 
 type aRes struct {
-	BC      []bcOut             `json:"bc,omitempty"`
-	Status  int                 `json:"status"`
-	Headers map[string][]string `json:"headers,omitempty"`
-	B64     string              `json:"b64,omitempty"`
-	BodyLen int                 `json:"bodylen"`
-	Panic   string              `json:"panic,omitempty"`
-	Err     string              `json:"err,omitempty"`
-	Files   []aFileInfo         `json:"files,omitempty"`
-	N       int                 `json:"n"`
-	Names   []string            `json:"names,omitempty"`
-	Par     [][]aRes            `json:"par,omitempty"`
-	View    *aView              `json:"view,omitempty"`
-	Pages   [][]string          `json:"pages,omitempty"`
-	PageLens []int              `json:"pagelens,omitempty"`
-	MS      float64             `json:"ms"`
-	T0      int64               `json:"t0,omitempty"` // ns since the case started: just before / just after the handler ran
-	T1      int64               `json:"t1,omitempty"`
-	Cfg     map[string]interface{} `json:"cfg,omitempty"`
-	Flag    bool                `json:"flag"`
+	BC       []bcOut                `json:"bc,omitempty"`
+	Status   int                    `json:"status"`
+	Headers  map[string][]string    `json:"headers,omitempty"`
+	B64      string                 `json:"b64,omitempty"`
+	BodyLen  int                    `json:"bodylen"`
+	Panic    string                 `json:"panic,omitempty"`
+	Err      string                 `json:"err,omitempty"`
+	Files    []aFileInfo            `json:"files,omitempty"`
+	N        int                    `json:"n"`
+	Names    []string               `json:"names,omitempty"`
+	Par      [][]aRes               `json:"par,omitempty"`
+	View     *aView                 `json:"view,omitempty"`
+	Pages    [][]string             `json:"pages,omitempty"`
+	PageLens []int                  `json:"pagelens,omitempty"`
+	MS       float64                `json:"ms"`
+	T0       int64                  `json:"t0,omitempty"` // ns since the case started: just before / just after the handler ran
+	T1       int64                  `json:"t1,omitempty"`
+	Cfg      map[string]interface{} `json:"cfg,omitempty"`
+	Flag     bool                   `json:"flag"`
 }
 
 type aFileInfo struct {
@@ -334,16 +334,16 @@ func viewOf(raw []byte) *aView {
 
 // ---- server under test -------------------------------------------------------------------
 type aEnv struct {
-	mu    sync.Mutex
-	async []chan aRes
-	start time.Time
+	mu      sync.Mutex
+	async   []chan aRes
+	start   time.Time
 	closing atomic.Bool // a "close" step was started (it may still be running, or hang)
-	dir  string
-	conf aConf
-	s    *Server
-	sids map[int]string // step index -> session id / state learned from Location
-	sts  map[int]string
-	locs map[int]string
+	dir     string
+	conf    aConf
+	s       *Server
+	sids    map[int]string // step index -> session id / state learned from Location
+	sts     map[int]string
+	locs    map[int]string
 }
 
 func bp(b bool) *bool { return &b }
